@@ -65,6 +65,25 @@ CHECKS = {
              "time), the default policy (returns only with the child reaped, SIGTERM not before the deadline and never without one), destroy on "
              "NULL / never started / failed start / rejected options (no kill, poll, waitpid or close; ledgers clean), the forked side (h_start), and a "
              "handle whose first start failed with a deadline before the real start without one."),
+    "C08": dict(
+        cat="model_checking", design="3/C08",
+        technique="stateless model checking of the real library under a virtual clock: exhaustive enumeration of source orders/deadlines/timeouts x blocked-call outcomes (every elapsed millisecond, timeout expiry, signal interruption) x clock-read deviations",
+        text="reproc_wait: timeout {0,1,2,3,INFINITE,DEADLINE} x deadline {none,1,2,3,INT_MAX} x child {idle, exits at any point, two waits}. "
+             "reproc_poll: 1..2 (thorough 3) sources in every order, each {no process, no deadline, deadline 1/2/3 ms, already expired} x interests "
+             "{EXIT, OUT, OUT|EXIT} x timeout {0,1,2,3,INFINITE} x children {idle, write, exit}, polled twice. Every alternative at every blocked OS "
+             "poll (child event after each elapsed ms, expiry, EINTR after each elapsed ms) and clock jumps at clock reads, one deviation (quick) / two "
+             "(thorough). Oracle: never returns after min(timeout, earliest deadline) on the virtual clock; 0 only at/after the timeout with no earlier "
+             "deadline; a deadline event alone, on a source whose deadline has passed and is the earliest when it had to be waited for, immediately and "
+             "again when already expired; no stale events; a hang only when nothing bounds the call."),
+    "C09": dict(
+        cat="model_checking", design="3/C09",
+        technique="stateless model checking of the real library: exhaustive enumeration of stream/child states x interest masks x schedules, with kernel truth probes after every poll",
+        text="1 and 3 sources (one of them process-less) x all 16 interest masks x stdout {idle, data pending, closed by child, closed by parent, EOF "
+             "already reported, not a pipe} x stdin {idle, closed by child, closed by parent} x stderr {pipe, parent} x child {running, zombie, reaped} x "
+             "timeout {0, 2} x an expired deadline on the last source, with one remaining child step released at any scheduling/blocked point. After "
+             "each return the harness polls the parent's own descriptors (matched to the child's by pipe inode): events == requested and ready, count == "
+             "sources with events, EPIPE iff nothing requested is pollable, and every reported event is consumed (read / 1-byte write / wait(0)) without "
+             "blocking or would-block."),
 }
 
 NOT_YET = "check not built yet (work in progress; see DESIGN.md section 7 for the build order)"
